@@ -22,8 +22,13 @@
 //!  * a discovery returns only registrations that are live in the reference model (accepted, not
 //!    unregistered, not superseded, deadline not reached), none twice, and none that an earlier
 //!    discovery of the same cookie chain returned.
+//!  * completeness: a discovery without cookie and without limit returns every registration that was
+//!    accepted and is neither unregistered, superseded nor past its own ttl (an accepted
+//!    registration lives for the ttl it was accepted with; a refresh lives for its *own* ttl);
+//!  * an ExpiredRegistration event names only a registration whose own ttl has elapsed (events of
+//!    superseded registrations at their own old deadline are accepted).
 //! Left open (follows the store): whether a *new* registration within the limits is accepted,
-//! completeness of discovery, answers to mismatching cookies, ExpiredRegistration events.
+//! completeness of cookie / limit discoveries, answers to mismatching cookies.
 
 use kit::ids::{addr, keypair, peer};
 use libp2p_core::PeerRecord;
@@ -40,7 +45,7 @@ use std::time::Duration;
 
 pub const META: Meta = Meta {
     level: "model_checking",
-    rule: "BFS over all histories of {register(peer in 2, namespace in 3, ttl in {1,2,10,11} for namespace 0 and {2,10} otherwise), unregister(peer, namespace), discover(all | ns0 | ns1; cookie none | last | older | foreign-namespace; limit none | 1), advance virtual time by 1 s or 8 s followed by polling the expiry stream} on the real Registrations store with limits min_ttl 2, max_ttl 10, 2 per peer, 3 in total; states deduplicated on (reference model with relative deadlines, last two cookies, pending timers of dead registrations, discover-all projection and table sizes of the store). Non-trivial = states with at least one live registration.",
+    rule: "BFS over all histories of {register(peer in 2, namespace in 3, ttl in {1,2,10,11} for namespace 0 and {2,10} otherwise), unregister(peer, namespace), discover(all | ns0 | ns1 (ns1 in the thorough tier only); cookie none | last | older | foreign-namespace; limit none | 1), advance virtual time by 1 s or 8 s followed by polling the expiry stream} on the real Registrations store with limits min_ttl 2, max_ttl 10, 2 per peer, 3 in total; states deduplicated on (reference model with relative deadlines, last two cookies, pending timers of dead registrations, discover-all projection and table sizes of the store). Non-trivial = states with at least one live registration.",
     explanation: "Every register answer and every discovery result is checked against the reference model of live registrations with deadlines and per-cookie already-returned sets; limits are checked on the store's own discover-all answer after every step; un-deduplicated DFS companion to a smaller depth.",
     assumptions: &["2 peers / 3 namespaces / tiny limits (small-scope hypothesis)", "cookie cache never overflows (default max_cookies 10000)", "expiry timers fire as soon as their deadline is reached and are polled before the next request (the order Behaviour::poll uses)", "signed peer records are trusted as built (record validation is not part of Registrations)"],
 };
@@ -122,6 +127,7 @@ struct CookieM {
     returned: BTreeSet<u32>,
 }
 
+static QUICK: std::sync::atomic::AtomicBool = std::sync::atomic::AtomicBool::new(false);
 static G_REFRESH: AtomicU64 = AtomicU64::new(0);
 static G_REFUSED_LIMIT: AtomicU64 = AtomicU64::new(0);
 static G_REFUSED_TTL: AtomicU64 = AtomicU64::new(0);
@@ -138,6 +144,8 @@ pub struct Sys {
     live: BTreeMap<(u8, u8), (u32, u64)>,
     /// ident -> why it is dead
     dead: BTreeMap<u32, &'static str>,
+    /// ident -> deadline acknowledged at acceptance (every accepted registration, live or dead)
+    deadlines: BTreeMap<u32, u64>,
     /// deadlines of timers that belong to dead registrations and are still pending in the store
     zombies: Vec<u64>,
     /// last two cookies handed out (most recent last)
@@ -155,7 +163,7 @@ impl Sys {
         mc::vclock::reset();
         libp2p_swarm::verif_delay::reset_registry();
         let cfg = Config::default().with_min_ttl(MIN_TTL).with_max_ttl(MAX_TTL).with_max_registration_per_peer(PER_PEER).with_max_registration_total(TOTAL);
-        let mut s = Sys { regs: VRegistrations::new(cfg), salt, now: 0, next_ident: 1, live: BTreeMap::new(), dead: BTreeMap::new(), zombies: Vec::new(), cookies: Vec::new(), proj: (Vec::new(), (0, 0)) };
+        let mut s = Sys { regs: VRegistrations::new(cfg), salt, now: 0, next_ident: 1, live: BTreeMap::new(), dead: BTreeMap::new(), deadlines: BTreeMap::new(), zombies: Vec::new(), cookies: Vec::new(), proj: (Vec::new(), (0, 0)) };
         s.drain();
         s
     }
@@ -196,7 +204,17 @@ impl Sys {
         });
         match r {
             Ok(reply) => {
-                let _ = mc::catch(|| self.drain()).map_err(|p| format!("panic at {} :: {p} [salt={salt}]", mc::shim::last_panic_loc().unwrap_or_default()))?;
+                let expired = mc::catch(|| self.drain()).map_err(|p| format!("panic at {} :: {p} [salt={salt}]", mc::shim::last_panic_loc().unwrap_or_default()))?;
+                // RegistrationExpired may only name a registration whose *own* ttl has elapsed
+                // (superseded registrations expiring at their own old deadline are accepted: the
+                // statement does not cover them)
+                for ident in expired {
+                    match self.deadlines.get(&ident) {
+                        Some(dl) if *dl <= self.now => {}
+                        Some(dl) => return Err(format!("expired-event-before-ttl :: registration #{ident} reported as expired at time {} although its own deadline is {dl}", self.now)),
+                        None => return Err(format!("expired-event-for-unknown-registration :: registration #{ident} reported as expired but was never accepted")),
+                    }
+                }
                 Ok(Resp { reply, sizes: self.regs.sizes() })
             }
             Err(p) => Err(format!("panic at {} :: {p} [salt={salt}]", mc::shim::last_panic_loc().unwrap_or_default())),
@@ -209,6 +227,16 @@ impl Sys {
                 self.zombies.push(deadline);
             }
         }
+    }
+    /// completeness (cookie-less, limit-less discovery): every registration that was accepted and is
+    /// neither unregistered, superseded nor past its own deadline must be in the answer
+    fn check_complete(&self, what: &str, q: Option<u8>, regs: &[(u32, u8, u8)]) -> Result<(), String> {
+        for ((p, n), (ident, deadline)) in &self.live {
+            if q.map(|x| x == *n).unwrap_or(true) && *deadline > self.now && !regs.iter().any(|r| r.0 == *ident) {
+                return Err(format!("live-registration-not-discovered :: {what}: registration #{ident} of ({p},{n}) (deadline {deadline}, now {}) is missing from a discovery without cookie and limit; answer {regs:?}", self.now));
+            }
+        }
+        Ok(())
     }
     /// check one discovery answer against the model; `used` = already-returned set of the cookie
     fn check_discovery(&self, what: &str, regs: &[(u32, u8, u8)], used: &BTreeSet<u32>) -> Result<(), String> {
@@ -257,6 +285,7 @@ impl Sys {
                             self.kill((*p, *n), "superseded");
                         }
                         self.live.insert((*p, *n), (ident, self.now + ttl));
+                        self.deadlines.insert(ident, self.now + ttl);
                     }
                     Err(e) => {
                         if valid {
@@ -298,6 +327,9 @@ impl Sys {
                     }
                     Ok((regs, wire)) => {
                         self.check_discovery(&format!("{a:?}"), &regs, &used)?;
+                        if *c == 0 && !*lim {
+                            self.check_complete(&format!("{a:?}"), q, &regs)?;
+                        }
                         if !used.is_empty() && self.live.values().any(|(i, _)| used.contains(i)) {
                             G_COOKIE_FILTERED.fetch_add(1, SeqCst);
                         }
@@ -328,6 +360,7 @@ impl Sys {
         let Reply::Get(Ok((mut regs, _))) = r.reply else { return Err("discover-all-refused :: discover without cookie refused".into()) };
         regs.sort();
         self.check_discovery("discover-all probe", &regs, &BTreeSet::new())?;
+        self.check_complete(&format!("discover-all probe after {a:?}"), None, &regs)?;
         if regs.len() > TOTAL {
             return Err(format!("total-limit-exceeded :: store holds {} registrations (max_registrations_total {TOTAL}) after {a:?}: {regs:?}", regs.len()));
         }
@@ -359,7 +392,9 @@ impl System for Sys {
                 v.push(Act::Unreg(p, n));
             }
         }
-        for n in [3u8, 0, 1] {
+        // quick tier: discover-all and ns0 only (ns1 queries are explored in the thorough tier)
+        let queries: &[u8] = if QUICK.load(SeqCst) { &[3, 0] } else { &[3, 0, 1] };
+        for &n in queries {
             for c in 0..4u8 {
                 if (c == 1 && self.cookies.is_empty()) || (c == 2 && self.cookies.len() < 2) {
                     continue;
@@ -431,6 +466,7 @@ fn run_inner(ctx: &Ctx) -> Outcome {
         }
         return out;
     }
+    QUICK.store(ctx.quick(), SeqCst);
     let depth = std::env::var("C51_DEPTH").ok().and_then(|s| s.parse().ok()).unwrap_or(ctx.tier.pick(5, 7));
     let (st, v) = bfs::bfs_replay(Sys::new, depth, ctx.tier.pick(300_000, 2_000_000));
     bfs::record(&mut out, &cfg, &st, &v);
